@@ -8,7 +8,7 @@ use std::rc::Rc;
 pub const DEF: PropDef = PropDef {
     id: "C04",
     level: "exploration",
-    rule: "complete enumeration of all control skeletons (blocks of 1..3 statements; say <marker> | if C [else] | while G | until G | break | continue; nesting <= 3; break/continue only inside loops) up to the node bound with the core alphabet (C in {true,false}, one self-exhausting guard `roll q` over a two-item queue), plus every single deviation to the rich alphabet (conditions of every value kind, other guards, long spellings, an erroring statement, empty then-block, unterminated last block) on every program of <= 6 nodes; the marker trace and outcome are compared with the reference interpreter run on the parsed tree; non-trivial = contains at least one if or loop and was judged; distinct = distinct program text",
+    rule: "complete enumeration of all control skeletons (blocks of 1..3 statements; say <marker> | if C [else] | while G | until G | break | continue; nesting <= 3; break/continue only inside loops) up to the node bound with the core alphabet (C in {true,false}, one self-exhausting guard `roll q` over a two-item queue), plus every single deviation to the rich alphabet (conditions of every value kind, other guards, long spellings, an erroring statement, empty then-block, unterminated last block) on every program of <= 5 (thorough 7) nodes; the marker trace and outcome are compared with the reference interpreter run on the parsed tree; non-trivial = contains at least one if or loop and was judged; distinct = distinct program text",
     assumptions: &["reference interpreter (refmodel/interp.rs) written from the property text", "programs larger than the node bound, and several simultaneous rich deviations, are not covered"],
     build,
     exhaustive: true,
@@ -254,7 +254,7 @@ pub struct C04 {
 
 fn build(tier: Tier) -> Box<dyn Check> {
     let core = programs_up_to(tier.pick(7, 8));
-    let small = programs_up_to(tier.pick(5, 6));
+    let small = programs_up_to(tier.pick(5, 7));
     let mut prefix = Vec::with_capacity(small.len() as usize + 1);
     let mut total = 0u64;
     for p in small.iter() {
